@@ -17,11 +17,12 @@ enum OpK : uint8_t {
 	OP_ATTACH,                     // a = 0 detach / 1 attach
 	OP_PLAN_CHANGE, OP_PLAN_CHANGEW, OP_PLAN_CLEAR, OP_PLAN_REMOVE,   // a = origin / mask, b = destination, c = payload tag
 	OP_SUCCEED, OP_FAIL,           // a = state
+	OP_LOAD_BLANK,                 // automatic machines: load() of a buffer whose activity bit is clear (an all-zero buffer): nothing may happen
 	OP_COUNT
 };
 static const char* const OP_NAME[] = {"construct", "update", "react", "query", "changeTo", "immediateChangeTo", "changeWith", "immediateChangeWith", "enter", "exit",
 	"replayTransition", "replayTransition(INVALID)", "replayEnter", "save", "load", "copy", "destroy", "attachLogger",
-	"plan.change", "plan.changeWith", "plan.clear", "plan.remove", "succeed", "fail"};
+	"plan.change", "plan.changeWith", "plan.clear", "plan.remove", "succeed", "fail", "load(<blank buffer>)"};
 
 struct Op { uint8_t k, a, b, c; };
 
@@ -96,6 +97,7 @@ inline OpResult apply(const Op& op, int slot) {
 			m.save(tmp.buf); m.load(tmp.buf);
 		} else m.load(g_loadbuf[op.a].buf);
 		break;
+	case OP_LOAD_BLANK: { static SerBuf blank; memset(&blank, 0, sizeof blank); m.load(blank.buf); } break;
 #endif
 #if VX_LOG
 	case OP_ATTACH: m.attachLogger(op.a ? &g_log : nullptr); break;
